@@ -93,8 +93,8 @@ def run_property(pid, tier, m=None, configs=None, quiet=False, shared_ctx=None):
                 broken.append('[%s] %s' % (' '.join(defs) or 'default', msg))
         for f in ctx.findings:
             via = [d for d in deps if d in f.props]
-            if pid not in f.props and via and not f.note:
-                f.via = via[0]
+            # (the attribute is per property: with --all one finding object is seen by several properties)
+            f.via = via[0] if (pid not in f.props and via and not f.note) else None
             if pid in f.props or (via and not f.note) or (f.note and not f.props and f.rule in spec.get('note_rules', ())):
                 if not any(g.ident() == f.ident() and g.note == f.note for g in all_findings):
                     all_findings.append(f)
